@@ -109,19 +109,27 @@ func generate(prop, tier, lane string, seed uint64, worker, run int) *Scenario {
 // are verdicts even if a later run hangs).
 var wdFlush func()
 
+// liveTicks is bumped by every hook the harness installs (plain increment,
+// read racily by the watchdog): yields are being executed, i.e. the code under
+// test is inside the simulator's control and bounded by its step caps.
+var liveTicks int64
+
 func startWatchdog(limit time.Duration) {
 	go func() {
 		last := int64(-1)
 		lastChange := time.Now()
 		for {
 			time.Sleep(2 * time.Second)
-			p := atomic.LoadInt64(&progress)
+			// progress = a run completed OR yields are being executed (a long
+			// run on a loaded machine is not a hang; runaway loops inside
+			// instrumented code are ended by the step caps, not by this)
+			p := atomic.LoadInt64(&progress) + liveTicks
 			if p != last {
 				last, lastChange = p, time.Now()
 				continue
 			}
 			if time.Since(lastChange) > limit {
-				fmt.Fprintf(os.Stderr, "WATCHDOG: no run completed for %v; the code under test blocks or spins outside the simulator's control. Exit 2 (not a verdict).\n", limit)
+				fmt.Fprintf(os.Stderr, "WATCHDOG: no run completed and no yield executed for %v; the code under test blocks or spins outside the simulator's control. Exit 2 (not a verdict).\n", limit)
 				if wdFlush != nil {
 					wdFlush()
 				}
